@@ -141,8 +141,10 @@ func c20Run(c *fw.Ctx) {
 	positions := []c20Position{
 		{Name: "proxy/callback-error-parameter", Side: "proxy", Build: func(w *c20World, v, accept string) *http.Request {
 			h := http.Header{}
-			if accept != "" {
-				h.Set("X-Requested-With", "XMLHttpRequest")
+			if accept == "application/json" {
+				h.Set("X-Requested-With", "XMLHttpRequest") // the proxy's JSON rendering is chosen by this header
+			} else if accept != "" {
+				h.Set("Accept", accept)
 			}
 			return harness.NewRequest("GET", "/oauth2/callback?error="+url.QueryEscape(v), hostA, h, nil)
 		}, JSON: true},
@@ -222,11 +224,14 @@ func c20Run(c *fw.Ctx) {
 	drive(c, "product", -1, func(x *explore.Exec, owned bool) {
 		p := positions[x.Choose("position", len(positions))]
 		pl := payloads[x.Choose("payload", len(payloads))]
-		asJSON := p.JSON && x.Choose("accept-json", 2) == 1
-		accept := ""
-		if asJSON {
-			accept = "application/json"
+		// what the client says it accepts: nothing, JSON (where the position has a JSON rendering), anything,
+		// plain text, images first
+		accepts := []string{"", "*/*", "text/plain", "image/avif,image/webp,*/*;q=0.8"}
+		if p.JSON {
+			accepts = append(accepts, "application/json")
 		}
+		accept := accepts[x.Choose("accept", len(accepts))]
+		asJSON := accept == "application/json"
 		bs, _, bbody, bok := render(p, c20Benign, accept)
 		st, ctype, body, ok := render(p, pl.V, accept)
 		if !owned {
@@ -236,7 +241,7 @@ func c20Run(c *fw.Ctx) {
 		viol := func(key, what string) {
 			c.Res.Violate(fw.Violation{Property: "C20", Key: "C20/" + key, What: what, Scenario: "product", Choices: x.Choices(), Detail: d})
 		}
-		c.Res.Outcome(fmt.Sprintf("%s|%s|%v|%d|reflected=%v", p.Name, pl.Name, asJSON, st, strings.Contains(body, pl.V) || strings.Contains(body, html.EscapeString(pl.V))))
+		c.Res.Outcome(fmt.Sprintf("%s|%s|%s|%d|reflected=%v", p.Name, pl.Name, accept, st, strings.Contains(body, pl.V) || strings.Contains(body, html.EscapeString(pl.V))))
 		if c.Res.Execs%20 == 3 {
 			c.Res.Sample(d)
 		}
@@ -245,6 +250,11 @@ func c20Run(c *fw.Ctx) {
 		}
 		if !ok || !bok {
 			return
+		}
+		if ctype == "" {
+			// no declared type: a browser sniffs one from the first bytes, exactly as net/http does
+			ctype = http.DetectContentType([]byte(body))
+			d["content_type"] = ctype + " (sniffed: none was declared)"
 		}
 		if strings.Contains(ctype, "json") || (asJSON && strings.HasPrefix(strings.TrimSpace(body), "{")) {
 			var v interface{}
@@ -300,7 +310,7 @@ func init() {
 		ID:    "C20",
 		Level: "exploration",
 		Rule: "full product of 17 payloads (text that already looks escaped, long values with markup, thorough: plus each of the 256 byte values inside a benign value and all 400 ordered pairs of 20 metacharacters in front of an event-handler-shaped tail) (URL-bearing text, brace-prefixed text, script element, attribute break-out with double and single quotes, </title> break-out, javascript: URL, entity-encoded markup, UTF-7, overlong UTF-8, NUL, template actions, comment break-out, CR/LF/TAB) x 14 request-controlled positions on the real services " +
-			"(proxy callback `error`; authenticator callback `error`, sign-in page redirect_uri query / raw path / host label / state and parameter names, sign-out page redirect_uri and session email, sign-in / sign-out page with a javascript:-scheme redirect_uri whose host is in domain, sign_in / start / client_id / redeem error responses) x {HTML, Accept: application/json (or XHR) where the position has a JSON rendering}; " +
+			"(proxy callback `error`; authenticator callback `error`, sign-in page redirect_uri query / raw path / host label / state and parameter names, sign-out page redirect_uri and session email, sign-in / sign-out page with a javascript:-scheme redirect_uri whose host is in domain, sign_in / start / client_id / redeem error responses) x Accept {none, */*, text/plain, images first, application/json (or XHR) where the position has a JSON rendering}; a response without a declared type is taken for what a browser would sniff; " +
 			"oracle: the HTML token structure (element names and attribute names, via golang.org/x/net/html's tokenizer) equals that of the same page rendered with a benign value, no URL attribute carries a script URL, and JSON bodies parse; " +
 			"distinct_nontrivial = distinct (position, payload, json, status, reflected?)",
 		Assumptions:    []string{"a payload that makes the request unparseable for net/http or is refused with another status than the benign value is not compared", "browser parsing is approximated by the x/net/html tokenizer"},
